@@ -316,7 +316,7 @@ fn check_map(spec: &Spec, d: i64, map: &HitObjects) -> Option<(String, String)> 
                 let dist = gc.path.curve().dist();
                 // the curve a decoded slider carries is the curve of ITS control points and requested length
                 let own = rosu_map::section::hit_objects::Curve::new(mode, g.path.control_points(), g.path.expected_dist(), &mut rosu_map::section::hit_objects::CurveBuffers::default());
-                if own.dist().to_bits() != dist.to_bits() || own.path() != gc.path.curve().path() {
+                if own.dist().to_bits() != dist.to_bits() || !super::curves::same_points(own.path(), gc.path.curve().path()) {
                     return Some(("slider-curve-not-its-own".into(), format!("object {i}: cached curve has distance {dist}, the curve of its own control points / length {:?} has {}", g.path.expected_dist(), own.dist())));
                 }
                 let spans = f64::from(g.repeat_count + 1);
